@@ -22,15 +22,16 @@ ASSUMPTIONS = [
     "concurrent close() calls are included for TCP only (TCP close() takes the request lock; UDP close() is "
     "documented as immediate and would abandon the in-flight transmission by design)",
 ]
-MUST = ["contended_handover", "retry_while_queued", "fragment_while_queued", "own_answer_checked", "windows_checked"]
+MUST = ["lossless_schedules", "contended_handover", "retry_while_queued", "fragment_while_queued", "own_answer_checked", "windows_checked"]
 EXHAUSTIVE = {"quick": False, "thorough": False}
 EPS = 1e-6
 ALPHA = ["drop", "now", "intime", "frag2"]
 
 
-def scenario(transport, ka, T, R, script, starts, close_at=None, cancel=None):
+def scenario(transport, ka, T, R, script, starts, close_at=None, cancel=None, counts=None):
     framing = "rtu" if transport == "udp" else "tcp"
-    tasks = [{"start": st, "steps": [["read", 1000 + 100 * i, 2]]} for i, st in enumerate(starts)]
+    counts = counts or [2] * len(starts)
+    tasks = [{"start": st, "steps": [["read", 1000 + 100 * i, counts[i]]]} for i, st in enumerate(starts)]
     if cancel is not None:          # (task index, time): the caller's task is cancelled from outside while it is queued
         tasks[cancel[0]]["cancel_at"] = cancel[1]
     if close_at is not None:
@@ -89,6 +90,10 @@ def check_run(sc, run, part: Part):
         mine = {t["n"] for t in txs if t["reg"] == reg}
         if rec["outcome"] == "ok":
             data = bytes.fromhex(rec["result"]["data"])
+            if len(data) != 2 * rec["step"][2]:
+                out.append((f"C06/{tr}/foreign-answer",
+                            f"caller of register {reg} (count {rec['step'][2]}) received {len(data)} payload bytes"))
+                continue
             got_reg, got_n = int.from_bytes(data[0:2], "big"), int.from_bytes(data[2:4], "big")
             part.count("own_answer_checked")
             if got_reg != reg or got_n not in mine:
@@ -97,6 +102,20 @@ def check_run(sc, run, part: Part):
                             f"#{got_n}); its own transmissions were {sorted(mine)}"))
         elif rec["outcome"] not in ("RequestFailedException", "RequestRejectedException", "CancelledError"):
             part.count("other_exception_type(handed to C09)")
+    # a schedule without any loss (every transmission answered completely and in time) must serve every caller at once:
+    # one transmission per caller, all succeed (C07 (a) / C05 under concurrency)
+    syms = [e[4] if isinstance(e[4], str) else e[4][0] for e in ev if e[1] == "peer"]
+    lossless = syms and all(x in ("now", "delay", "intime") for x in syms) and not any(c["step"][0] == "close" for c in run.calls)
+    if lossless:
+        part.count("lossless_schedules")
+        for rec in run.calls:
+            if rec["step"][0] != "read":
+                continue
+            mine = [t for t in txs if t["reg"] == rec["step"][1]]
+            if rec["outcome"] != "ok" or len(mine) != 1:
+                out.append((f"C06/{tr}/lossless-schedule-not-served",
+                            f"no transmission was lost or late, yet the caller of register {rec['step'][1]} ended {rec['outcome']} after "
+                            f"{len(mine)} transmissions"))
     # reach: contention
     calls = {c["id"]: c for c in run.calls if c["step"][0] == "read"}
     for tx in txs:
@@ -178,7 +197,10 @@ def run_shard(spec):
             #  which by itself lets a queued caller transmit early; C10 has a controlled 'queued caller cancelled' workload)
             ka = rnd.random() < 0.5
             cancel = None
-            sc_ = scenario(transport, ka, T, R, script, starts, close_at, cancel)
+            counts = [rnd.choice((2, 2, 3, 5, 10, 60)) for _ in range(k)] if rnd.random() < 0.5 else None
+            if rnd.random() < 0.2:
+                script = [rnd.choice(("now", ["delay", round(rnd.choice((0.1, 0.4, 0.8)) * T, 6)])) for _ in range(k + 1)]
+            sc_ = scenario(transport, ka, T, R, script, starts, close_at, cancel, counts)
             sc_["hops"] = rnd.choice((0, 0, 1, 2, 3))
             run_case(sc_, part)
     return part
